@@ -112,6 +112,9 @@ fn alpha(cfg: &Cfg) -> Vec<Op> {
         v.push(c(Cbt(n)));
     }
     v.push(Op::text(&"w".repeat(cfg.cols)));
+    // tab stops are shared by both screens: a switch (and a resize in between) must not touch them
+    v.push(c(DecSet(vec![1047])));
+    v.push(c(DecRst(vec![1047])));
     for w in [1usize, 8, 9, 16, 17, 24, 25] {
         if w != cfg.cols {
             v.push(Op::resize(w, cfg.rows));
@@ -131,7 +134,7 @@ macro_rules! parts {
                 Tier::Thorough => cfgs(&[(1, 1), (2, 1), (8, 1), (9, 1), (16, 1), (17, 1), (20, 2)], &[Some(0)]),
             },
             alphabet: &alpha,
-            depth: tier.pick(5, 7),
+            depth: tier.pick(4, 6),
             seconds: tier.pick(35.0, 2400.0),
             validated: true,
             nontrivial: Some("lockstep_transitions"),
